@@ -509,8 +509,8 @@ class EndpointResponseHandlerGenerator:
                     # Error responses - use human-readable exception names
                     if is_error_code(status_code_val):
                         error_class_name = get_exception_class_name(status_code_val)
-                        context.add_import(f"{context.core_package_name}", error_class_name)
-                        writer.write_line(f"raise {error_class_name}(response=response)")
+                        error_ref = self._exception_ref(context, "exception_aliases", error_class_name)
+                        writer.write_line(f"raise {error_ref}(response=response)")
                     else:
                         # Exception aliases exist for 4xx/5xx only; other declared codes raise the base class
                         context.add_import(f"{context.core_package_name}.exceptions", "HTTPError")
@@ -549,14 +549,30 @@ class EndpointResponseHandlerGenerator:
         writer.write_line("raise RuntimeError('Unexpected code path')  # pragma: no cover")
         writer.write_line("")  # Add a blank line for readability
 
+    def _exception_ref(self, context: RenderContext, module: str, class_name: str) -> str:
+        """Import an exception class of the core package and return the name to raise it by.
+
+        A model class of the spec with the same name would shadow a by-name import in the endpoints module,
+        so such a class is referenced through its module instead.
+        """
+        model_names = {getattr(schema, "generation_name", None) or name for name, schema in self.schemas.items()}
+        if class_name in model_names:
+            context.add_import(context.core_package_name, module)
+            return f"{module}.{class_name}"
+        if module == "exceptions":
+            context.add_import(f"{context.core_package_name}.exceptions", class_name)
+        else:
+            context.add_import(context.core_package_name, class_name)
+        return class_name
+
     def _write_range_aware_raise(self, writer: CodeWriter, context: RenderContext, message: str) -> None:
         """Raise ClientError for 4xx, ServerError for 5xx and the base HTTPError for any other status."""
         for lower, upper, error_class in ((400, 500, "ClientError"), (500, 600, "ServerError")):
-            context.add_import(f"{context.core_package_name}.exceptions", error_class)
+            error_ref = self._exception_ref(context, "exceptions", error_class)
             writer.write_line(f"if {lower} <= response.status_code < {upper}:")
             writer.indent()
             writer.write_line(
-                f'raise {error_class}(response=response, message="{message}", status_code=response.status_code)'
+                f'raise {error_ref}(response=response, message="{message}", status_code=response.status_code)'
             )
             writer.dedent()
         context.add_import(f"{context.core_package_name}.exceptions", "HTTPError")
